@@ -65,6 +65,18 @@ func c13Policy(a *refsem.Arch, variant int) *seccomp.Policy {
 	return p
 }
 
+// c13Extend appends one more group to p (in place: the same policy VALUE is modified, as a caller may do).
+func c13Extend(a *refsem.Arch, p *seccomp.Policy) {
+	p.Syscalls = append(p.Syscalls[:len(p.Syscalls):len(p.Syscalls)], seccomp.SyscallGroup{Action: seccomp.ActionKillProcess, Names: []string{s1Names(a)[2]}})
+	p.DefaultAction = seccomp.ActionLog
+}
+
+func c13PolicyExt(a *refsem.Arch) *seccomp.Policy {
+	p := c13Policy(a, 1)
+	c13Extend(a, p)
+	return p
+}
+
 // snapshot renders everything a caller can see of a policy, including the spare capacity of every slice.
 func c13Snapshot(p *seccomp.Policy) string {
 	var b strings.Builder
@@ -334,6 +346,10 @@ func c13Scenarios() map[string]c13Setup {
 	m["hist-Q"] = mkScenario("hist-Q", func() ([]c13Call, []*seccomp.Policy) {
 		q := c13Policy(arm, 0)
 		return []c13Call{{"Assemble(Q)", func() string { return c13Compile(q) }}, {"texts", c13Texts}}, []*seccomp.Policy{q}
+	})
+	m["hist-Pext"] = mkScenario("hist-Pext", func() ([]c13Call, []*seccomp.Policy) {
+		p := c13PolicyExt(x)
+		return []c13Call{{"Assemble(P extended by one group, built fresh)", func() string { return c13Compile(p) }}}, []*seccomp.Policy{p}
 	})
 	c13ScenCache = m
 	return m
